@@ -249,6 +249,22 @@ def main(tier):
             st1 = G_.run_step(rng_, clock_, target=tgt_, again=False, p_fail=0.0)
             hs.append({"project": proj_, "steps": [st0, st1], "tag": k_})
             k_ += 1
+    # ... nor a version that arrives through `cond restore`: the same task ran at the same second in another clone (successfully
+    # there, failing here); restoring the other clone's archive must not merge into the directory the failed execution left
+    for v_ in range(4):
+        rng_ = random.Random(2000 + v_)
+        proj_ = G_.base_project(rng_)
+        st_fail = G_.run_step(rng_, 100, target="//:all", again=False, p_fail=0.0)
+        st_fail["exits"] = {nm: 3 for _p, nm in G_.EXPS if nm != "a"}
+        # (archive one experiment that depends on nothing: every other version of the archive would already be recorded here)
+        free_ = [t for t in proj_["tasks"] if t["kind"] == "run_experiment" and not t["deps"] and t["name"] != "a"]
+        tgt_id_ = "//%s:%s" % (free_[v_ % len(free_)]["pkg"], free_[v_ % len(free_)]["name"]) if free_ else "//:d"
+        hs.append({"project": proj_, "tag": 100 + v_, "steps": [
+            {"cmd": "copyproject", "name": "donor"},
+            dict(G_.run_step(rng_, 100, target="//:all", again=False, p_fail=0.0), project="donor"),
+            {"cmd": "archive", "argv": ["archive", tgt_id_, "-o", "../D.tar.gz"], "out": "../D.tar.gz", "sel": {}, "project": "donor"},
+            st_fail,
+            {"cmd": "restore", "argv": ["restore", "../D.tar.gz"], "archive": "../D.tar.gz", "defect": "none"}]})
     hres = C.fork_map(S_.run_history, hs, timeout=600)
     htraces = []
     for i_, (sc_, h_) in enumerate(zip(hs, hres)):
@@ -259,7 +275,8 @@ def main(tier):
     if htraces:
         hverd, _htr = S_.judge(htraces)
         for t_ in htraces:
-            badv = sorted({c for _st, c in hverd[t_["id"]]} & {"DirFresh", "DirEmptyAtStart", "IdUnique"})
+            badv = sorted({c for _st, c in hverd[t_["id"]]} & {"DirFresh", "DirEmptyAtStart", "IdUnique", "CannotCompleteMeansUnchanged",
+                                                                  "RecordedImmutable"})
             if badv:
                 rep.violation({"clause": "DistinctOutputDirs", "versions": True}, hs[t_["id"]],
                               "two executions of one task shared an output directory (%s)" % badv)
